@@ -33,7 +33,7 @@ func init() {
 			{ID: "C11.f", Title: "STH-LITERALS", Template: "T5", MinInst: 1,
 				Rule: "signer's and verifier's SignedTreeHead literals set the same fields with the same version", Run: c11f},
 			{ID: "C11.g", Title: "DETERMINISTIC", Template: "T6", MinInst: 1,
-				Rule: "ecdsa Sign is called with a nil random source (as C07.f)", Run: c07f},
+				Rule: "the tree-head signature is requested with a nil random source (deterministic ECDSA), whatever path the source takes to ecdsa Sign", Run: func(c *Ctx) { c07fFor(c, "ctlog.signTreeHead") }},
 		},
 	})
 }
@@ -89,9 +89,9 @@ func c11a(c *Ctx) {
 		}
 		// sig = digitallySign(c.Key, SerializeSTHSignatureInput(STH{...tree...}))
 		okSig := false
-		if ds, ok := f.IsCallResult(argByName(info, inj, "sig"), 0, Callee{pkgCtlog, "", "digitallySign"}); ok && len(ds.Args) == 2 {
-			if f.IsFieldPathOf(ds.Args[0], isCfg, "Key") {
-				if ser, ok := f.IsCallResult(ds.Args[1], 0, Callee{pkgCT, "", "SerializeSTHSignatureInput"}); ok && len(ser.Args) == 1 {
+		if ds, ok := f.IsCallResult(argByName(info, inj, "sig"), 0, Callee{pkgCtlog, "", "digitallySign"}); ok && argByName(info, ds, "k") != nil && argByName(info, ds, "msg") != nil {
+			if f.IsFieldPathOf(argByName(info, ds, "k"), isCfg, "Key") {
+				if ser, ok := f.IsCallResult(argByName(info, ds, "msg"), 0, Callee{pkgCT, "", "SerializeSTHSignatureInput"}); ok && len(ser.Args) == 1 {
 					if _, ok := ast.Unparen(f.ResolveDeep(ser.Args[0]).E).(*ast.CompositeLit); ok {
 						okSig = true
 					}
